@@ -583,6 +583,14 @@ var c08Corpus = []struct {
 	{3, "1 A 0 -;1 A 0 -;1 S 0;2 S 0;3 S 0;1 I;2 A 0 d;3 T 0 1 a d 0;3 E;2 M 0 1:* 1;1 D;1 K;2 K;3 K"},
 	{2, "1 A 0 d;1 A 0 d;1 S 0;2 S 0;1 C;2 F 0 * 1 1;2 Q 0 * - - - 1;2 K"},
 	{2, "1 A 0 -;1 A 1 -;1 S 0;2 S 1;1 Y 0 1 1;2 Y 0 1 0;1 N;2 N;1 M 1 1:* 1;2 K;1 K"},
+	// minimised replays of the seeded breaking edits (SEARCH with server numbers, EXPUNGE during STORE,
+	// flag updates queued with the storer's number, an expunge dropped by a poll, encode off by one)
+	{2, "2 S 0;1 A 0 sf;2 Q 0 * - - - 1;2 K"},
+	{2, "1 A 0 d;1 S 0;2 S 0;2 E;1 T 0 * a s 0;1 K"},
+	{2, "1 A 0 -;1 S 0;2 S 0;1 A 0 d;2 T 1 2:5 a d 1;1 F 0 1,3 0 0;1 K;2 K"},
+	{3, "3 A 0 f;2 A 0 df;1 S 1;3 S 0;3 M 0 1:* 1;1 F 0 1:3 0 0;1 K;3 K"},
+	{2, "1 A 0 d;1 S 0;2 S 0;1 C;2 Q 0 * - - - 1;2 K"},
+	{2, "2 A 0 ds;1 A 0 -;1 S 0;2 S 0;2 E;2 Q 1 - - - - 0;2 S 1;2 E;2 F 0 1:2,* 0 0;1 Q 0 - - - - 0;1 E;2 S 0;1 K;2 K"},
 }
 
 func genC08(e *emitter, tier string, seed uint64) {
